@@ -33,10 +33,17 @@
 (* that has a key id, once on its own and once after unrelated calls with a  *)
 (* DIFFERENT key of kind seq carrying the SAME key id.  Allowed does not     *)
 (* depend on seq: the outcome is a function of the arguments alone.          *)
+(* A case may carry conc and keep ("live" cases): conc goroutines use ONE    *)
+(* shared instance (the cipher.AEAD of aescbcaead, the cipher.Block handed   *)
+(* to aeskw, one jwk.Key object for the crypto entry points) at once, each   *)
+(* making many calls with its own messages and nonces, and each keeps the    *)
+(* slices returned by its previous keep calls.  Allowed depends on neither:  *)
+(* a result is a function of the arguments of its call alone, and a result   *)
+(* handed to the caller stays what it was.                                   *)
 (* Outcome classes: ok | keytype nonce tag ptlen ctlen unsupported (the six  *)
 (* sentinels) | error (any other error) | invalid (verify: false, nil) |     *)
 (* panic (never admissible).                                                 *)
-EXTENDS Integers, Sequences, FiniteSets, TLC
+EXTENDS Integers, Sequences, FiniteSets, FiniteSetsExt, TLC
 
 CONSTANT Tier      \* "small" (quick) | "big" (thorough): sizes of the sweeps
 
@@ -225,6 +232,7 @@ Soft(cs, r) ==
 (* all v.                                                                    *)
 PadValid(cs) == cs.padV >= 1 /\ cs.padV <= 16 /\ (cs.padTail = "full" \/ (cs.padTail = "lastonly" /\ cs.padV = 1))
 IsSeq(cs) == "seq" \in DOMAIN cs
+IsLive(cs) == "conc" \in DOMAIN cs
 
 Allowed(cs) ==
   IF cs.mut = "pad" THEN (IF PadValid(cs) THEN {"ok"} ELSE {"error"})
@@ -378,6 +386,22 @@ SeqGroup(r, fn) ==
       ok == {x \in base : x.mut = "none" \/ ~KeyFault(x, r)}
   IN {x @@ [seq |-> q] : x \in ok, q \in SeqKinds}
 
+(* Live cases: shared instance used concurrently, earlier results retained. *)
+LiveNs == IF Small THEN {1, 2, 8} ELSE {1, 2, 4, 16}
+LiveKeeps == IF Small THEN {0, 1, 3} ELSE {0, 1, 2, 3}
+LiveShapes(ns, ks) == {x \in ns \X ks : ~(x[1] = 1 /\ x[2] = 0)}
+LiveLens(r) == IF r.fam = "kw" THEN {24, 1024} ELSE IF r.fam = "cbcnopad" THEN {32, 1024} ELSE {17, 1000}
+LiveSymFns == IF Small THEN SymFns ELSE SymFns \cup GenericFns
+LiveGroup(r, fn) ==
+  LET kb == GoodBits(r)
+      al == IF r.fam \in AuthFams \cup {"oaep"} THEN 20 ELSE 0
+      slow == r.kind \in {"asym", "sig"}
+      lens == IF r.kind = "asym" THEN {24} ELSE IF r.kind = "sig" THEN {IF r.fam = "eddsa" THEN 32 ELSE r.hash} ELSE LiveLens(r)
+      shapes == IF slow THEN LiveShapes({1, 2}, {1, 2}) ELSE LiveShapes(LiveNs, LiveKeeps)
+      nl == IF fn \in AeadFns THEN 16 ELSE NonceArg(fn, r)
+      tl == IF fn \in AeadFns THEN r.tag ELSE TagArg(fn, r)
+  IN {C(fn, r.alg, r.keyKind, kb, nl, tl, il, al, "none") @@ [conc |-> x[1], keep |-> x[2]] : il \in lens, x \in shapes}
+
 (* The case space is the disjoint union of small groups, one per (part, algorithm, entry point). *)
 G(part, alg, fn) == [part |-> part, alg |-> alg, fn |-> fn]
 Groups ==
@@ -390,6 +414,11 @@ Groups ==
   \cup {G("pad", "", fn) : fn \in PadFns}
   \cup {G("pad", r.alg, fn) : r \in PadRows, fn \in (IF Small THEN {"DecryptSymmetric"} ELSE {"DecryptSymmetric", "Decrypt"})}
   \cup {G("pad", r.alg, "aescbcaead.Open") : r \in AeadRows}
+  \cup {G("live", r.alg, fn) : r \in SymRows, fn \in LiveSymFns}
+  \cup {G("live", r.alg, fn) : r \in AeadRows, fn \in AeadFns}
+  \cup {G("live", r.alg, fn) : r \in KwRows, fn \in KwFns}
+  \cup {G("live", r.alg, fn) : r \in AsymRows, fn \in AsymFns}
+  \cup {G("live", r.alg, "SignPrivateKey") : r \in SigRows}
   \cup {G("seq", r.alg, fn) : r \in SigRows, fn \in SigFns}
   \cup {G("seq", r.alg, fn) : r \in AsymRows, fn \in AsymCallFns}
 GroupCases(g) ==
@@ -401,18 +430,19 @@ GroupCases(g) ==
     [] g.part = "aead" -> AeadGroup(Row(g.alg), g.fn)
     [] g.part = "pad" -> PadGroup(g.alg, g.fn)
     [] g.part = "seq" -> SeqGroup(Row(g.alg), g.fn)
+    [] g.part = "live" -> LiveGroup(Row(g.alg), g.fn)
 GroupOf(cs) ==
   IF cs.mut = "pad" THEN G("pad", cs.alg, cs.fn)
   ELSE IF IsSeq(cs) THEN G("seq", cs.alg, cs.fn)
+  ELSE IF IsLive(cs) THEN G("live", cs.alg, cs.fn)
   ELSE IF cs.alg \notin SupportedFor(cs.fn) THEN G("name", "", cs.fn)
   ELSE IF cs.fn \in KwFns THEN G("kw", cs.alg, cs.fn)
   ELSE IF cs.fn \in AeadFns THEN G("aead", cs.alg, cs.fn)
   ELSE G(Row(cs.alg).kind, cs.alg, cs.fn)
 InCases(cs) == /\ cs.fn \in Fns /\ GroupOf(cs) \in Groups
                /\ IF cs.mut = "pad" THEN InPadGroup(cs) ELSE cs \in GroupCases(GroupOf(cs))
-RECURSIVE SumCard(_)
-SumCard(S) == IF S = {} THEN 0 ELSE LET g == CHOOSE x \in S : TRUE IN Cardinality(GroupCases(g)) + SumCard(S \ {g})
-NumCasesOf(GS) == SumCard(GS)      \* NumCasesOf(Groups): parametrised so that TLC does not evaluate it eagerly
+CardOfGroup(g) == Cardinality(GroupCases(g))
+NumCasesOf(GS) == MapThenSumSet(CardOfGroup, GS)      \* NumCasesOf(Groups): parametrised so that TLC does not evaluate it eagerly
 
 (* what the replay needs to know about a case, all of it derived from the table *)
 Describe(cs) ==
